@@ -43,7 +43,8 @@ Resource Resource::Create(const ResourceAttributes &attributes, const std::strin
     std::string default_service_name = "unknown_service";
     auto it_process_executable_name =
         resource.attributes_.find(semconv::process::kProcessExecutableName);
-    if (it_process_executable_name != resource.attributes_.end())
+    if (it_process_executable_name != resource.attributes_.end() &&
+        nostd::holds_alternative<std::string>(it_process_executable_name->second))
     {
       default_service_name += ":" + nostd::get<std::string>(it_process_executable_name->second);
     }
